@@ -460,6 +460,10 @@ class Body:
                 if d[0] == "stmt" and d[3]["pl"]["p"]:
                     continue
                 cand.add(l)
+        # bool parameters that are never re-assigned keep their value as well
+        for l in range(1, self.nargs + 1):
+            if self.locals[l]["ty"] == "bool" and not self.defs().get(l):
+                cand.add(l)
         for b in range(self.n):
             for st in self.blocks[b]["stmts"]:
                 if st["k"] == "assign" and st["rv"]["k"] in ("ref", "rawptr") and st["rv"].get("mut", True):
